@@ -351,3 +351,26 @@ Proof.
   destruct (fs_kind (filters_for blocks rs re target fsize c i)) eqn:Ek; try congruence.
   all: constructor; [exists b; split; [exact Hnth|exact G]|apply IH; auto; apply G].
 Qed.
+
+(* Known finding (C19): a filter section certifies itself and nothing in the block metadata binds
+   it to its block.  With the metadata of block b held fixed, swapping two equally long valid
+   sections in the file makes read_filters return the other block's filters, without an error and
+   without any checksum collision (the two sections even carry different checksums). *)
+From BS Require Import Lib.Crc32c.
+
+Lemma filter_section_unbound :
+  exists (file file' : str) (b : blockJ) (fs fs' : filters),
+    lenZ file' = lenZ file /\
+    read_filters crc32c (fun _ => true) file b = Some fs /\
+    read_filters crc32c (fun _ => true) file' b = Some fs' /\ fs' <> fs.
+Proof.
+  set (f1 := (Some [1%N; 2%N], None, None) : filters).
+  set (f2 := (Some [3%N; 4%N], None, None) : filters).
+  set (s1 := match encode_section crc32c f1 with Some s => s | None => [] end).
+  set (s2 := match encode_section crc32c f2 with Some s => s | None => [] end).
+  exists (s1 ++ s2), (s2 ++ s1),
+    {| rdo := 0; rds := 0; bfo := 0; bfs := lenZ s1; b_rows := 0; b_usize := 0; b_comp := CNone;
+       b_hash := 0%N; b_has_hash := false; b_cnt := (0%Z, 0%Z, 0%Z) |}, f1, f2.
+  split; [vm_compute; reflexivity|]. split; [vm_compute; reflexivity|]. split; [vm_compute; reflexivity|].
+  subst f1 f2. intro H. inversion H.
+Qed.
